@@ -280,20 +280,12 @@ func c07WellFormed(n *Node, depth int) error {
 func c07NodeRobust(t c07Fataler, in []byte) (decoded bool, sanitised int) {
 	b := append([]byte{}, in...)
 	sanitised = c07kit.Sanitize(b)
-	defer func() {
-		if r := recover(); r != nil {
-			st := string(debug.Stack())
-			if i := strings.Index(st, "panic("); i >= 0 {
-				st = st[i:]
-			}
-			if len(st) > 1500 {
-				st = st[:1500]
-			}
-			t.Fatalf("node.Decode(%x) panicked: %v\n%s", b, r, st)
-		}
-	}()
 	r := c07kit.NewCountingReader(b)
-	n, err := Decode(r)
+	var n *Node
+	var err error
+	if pv, st := c07Try(func() { n, err = Decode(r) }); pv != nil {
+		t.Fatalf("node.Decode(%x) panicked: %v\n%s", b, pv, st)
+	}
 	if err != nil {
 		return false, sanitised
 	}
@@ -305,11 +297,31 @@ func c07NodeRobust(t c07Fataler, in []byte) (decoded bool, sanitised int) {
 	}
 	if n != nil {
 		// every trie node encodes: a node that came out of Decode must too
-		if err := n.Encode(bytes.NewBuffer(nil)); err != nil {
+		if pv, st := c07Try(func() { err = n.Encode(bytes.NewBuffer(nil)) }); pv != nil {
+			t.Fatalf("node.Decode(%x) gave a node whose Encode panics: %v\n%s", b, pv, st)
+		}
+		if err != nil {
 			t.Fatalf("node.Decode(%x) gave a node that cannot be encoded: %v", b, err)
 		}
 	}
 	return true, sanitised
+}
+
+func c07Try(f func()) (pv any, st string) {
+	defer func() {
+		if r := recover(); r != nil {
+			pv = r
+			st = string(debug.Stack())
+			if i := strings.Index(st, "panic("); i >= 0 {
+				st = st[i:]
+			}
+			if len(st) > 1500 {
+				st = st[:1500]
+			}
+		}
+	}()
+	f()
+	return nil, ""
 }
 
 func TestC07NodeDecodeRobust(t *testing.T) {
